@@ -79,7 +79,25 @@ func nativeSeedRecoveryAttack() {
 			stateR = state
 		}
 	}
-	vn.Check("C06/session-id-determined-by-public-values", sidR != v.sid)
-	vn.Check("C06/nonce-determined-by-state-and-time", nonceR != v.nonce)
-	vn.Check("C06/state-determined-by-nonce-and-time", stateR != v.state)
+	if sidR == v.sid {
+		vn.Check("C06/session-id-determined-by-public-values", false)
+		vn.Check("C06/nonce-determined-by-state-and-time", nonceR != v.nonce)
+		vn.Check("C06/state-determined-by-nonce-and-time", stateR != v.state)
+		return
+	}
+	// Second attack, for generators whose whole output follows from a SMALL hidden seed (e.g. a
+	// math/rand source, which has fewer than 2^31 distinct streams, seeded from anywhere): among a
+	// few hundred thousand logins two share their state, and then they share the session id and
+	// the nonce as well -- the identifiers are functions of one another.
+	seen := map[string]kitLogin{}
+	for i := 0; i < 600000; i++ {
+		l := kitLoginRedirectValues()
+		if prev, ok := seen[l.state]; ok {
+			vn.Check("C06/session-id-determined-by-public-values", prev.sid != l.sid)
+			vn.Check("C06/nonce-determined-by-state-and-time", prev.nonce != l.nonce)
+			vn.Check("C06/state-determined-by-nonce-and-time", false)
+			return
+		}
+		seen[l.state] = l
+	}
 }
